@@ -6,6 +6,8 @@ import (
 	"sort"
 	"strconv"
 	"strings"
+	"sync"
+	"sync/atomic"
 
 	"github.com/issue9/mux/v9"
 
@@ -84,7 +86,9 @@ func corsJudge(cfg corsCfg, q corsReq, status int, h map[string][]string, corsRo
 	switch q.PathClass {
 	case "live":
 		served = contains(corsRouteAllow, q.Method)
-	case "star":
+	case "star", "empty":
+		// "empty": the absolute-form target without a path (`OPTIONS http://host`) selects the server-wide handler too, but -
+		// unlike `*` - a request to it that carries Access-Control-Request-Method is an ordinary preflight
 		served = q.Method == "OPTIONS"
 	}
 	preflight := q.Method == "OPTIONS" && q.ACRM != "" && q.PathClass != "star"
@@ -265,7 +269,7 @@ func corsRequests(cfg corsCfg, r *ref.R, random bool) []corsReq {
 		has  bool
 		val  string
 	}
-	originClasses := []oc{{"absent", false, ""}, {"listed", true, listedOrigin}, {"unlisted", true, rs("https://evil.example")}, {"case-differs", true, "HTTPS://A.EXAMPLE"}, {"null", true, "null"}, {"star", true, "*"}}
+	originClasses := []oc{{"absent", false, ""}, {"listed", true, listedOrigin}, {"unlisted", true, rs("https://evil.example")}, {"case-differs", true, "HTTPS://A.EXAMPLE"}, {"null", true, "null"}, {"star", true, "*"}, {"of-a-sibling-router", true, "http://0-sibling.example"}}
 	// requested-header classes are derived from the configured list (cfgH falls back to a fixed list for none/any)
 	cfgH := cfg.AllowH
 	if len(cfgH) == 0 || hasAny(cfgH) {
@@ -336,6 +340,15 @@ func runCORS(c *Ctx, prop string) {
 			path = "/boom/7" // same route shape, the handler panics and is recovered
 			c.Class("request_to_panicking_route")
 		}
+		if q.PathClass == "live" && qi%7 == 3 {
+			mon.Do(r, mon.Req{Method: ref.Pick(c.R, []string{"GET", "POST", "OPTIONS", "HEAD"}), Path: "/scribble/7", Header: hdr0(q)})
+			c.Class("request_to_header_editing_route")
+		}
+		if q.PathClass == "star" && qi%2 == 1 {
+			path, q.PathClass = "", "empty"
+			q.class = strings.Replace(q.class, " star ", " empty-path ", 1)
+			c.Class("request_with_empty_path")
+		}
 		hdr := map[string]string{}
 		if q.HasOrigin {
 			hdr["Origin"] = q.Origin
@@ -352,7 +365,11 @@ func runCORS(c *Ctx, prop string) {
 			c.Violate("CORS request panicked or nil handler", map[string]any{"config": cfg.class, "request": q.class})
 			return
 		}
-		c11, c12 := corsJudge(cfg, q, o.Status, o.Header, corsRouteAllow0)
+		allowSet := corsRouteAllow0
+		if q.PathClass == "empty" {
+			allowSet = mon.AllowSet(o.Header.Get("Allow")) // what the server-wide handler itself says it serves
+		}
+		c11, c12 := corsJudge(cfg, q, o.Status, o.Header, allowSet)
 		complaints := c11
 		if prop == "C12" {
 			complaints = c12
@@ -376,14 +393,144 @@ func runCORS(c *Ctx, prop string) {
 		}
 	}
 	corsHistory(c, prop, cfg, r, env)
+	if c.Case%8 == 5 && !c.Violated() {
+		corsConcurrent(c, prop, cfg)
+	}
+}
+
+// corsConcurrent: the decisions are per request - sixteen goroutines put their very first requests to a fresh router
+// at the same moment (a long, unsorted origin list; preflights with thirty-two requested headers, allowed ones and
+// ones that end in a disallowed name) and keep going; every answer is judged by the same judge as the sequential ones.
+func corsConcurrent(c *Ctx, prop string, base corsCfg) {
+	r := c.R
+	cfg := base
+	cfg.class += " +2500 origins, concurrent"
+	if !hasAny(base.Origins) && len(base.Origins) > 0 {
+		var many []string
+		for i := 0; i < 2500; i++ {
+			many = append(many, fmt.Sprintf("https://o%d-%d.example", r.Intn(1000000), i))
+		}
+		cfg.Origins = append(many, base.Origins...)
+		ref.Shuffle(r, cfg.Origins)
+	}
+	if len(cfg.AllowH) == 0 {
+		cfg.AllowH = []string{"Content-Type", "X-Token", "X-Trace-Id"}
+	}
+	env := mon.NewEnv()
+	rt := env.NewRouter("concurrent", mux.WithCORS(cfg.Origins, cfg.AllowH, cfg.Exposed, cfg.MaxAge, cfg.Creds))
+	rt.Handle("/c/{id}", env.NewHnd(mon.KRoute, "/c/{id}"), nil, "GET", "POST")
+	allowedList := func(lr *ref.R, evil bool) string {
+		var names []string
+		for i := 0; i < 32; i++ {
+			names = append(names, ref.Pick(lr, cfg.AllowH))
+		}
+		if evil && !hasAny(cfg.AllowH) {
+			names[lr.Intn(len(names))] = fmt.Sprintf("x-evil-%d", lr.Intn(9))
+		}
+		return strings.Join(names, ", ")
+	}
+	const workers = 16
+	var wg sync.WaitGroup
+	var mu sync.Mutex
+	var complaints []string
+	var judged atomic.Int64
+	start := make(chan struct{})
+	for g := 0; g < workers; g++ {
+		wg.Add(1)
+		lr := ref.NewR(r.U64())
+		go func() {
+			defer wg.Done()
+			<-start
+			for i := 0; i < 250; i++ {
+				q := corsReq{Method: "OPTIONS", PathClass: "live", HasOrigin: true, ACRM: ref.Pick(lr, []string{"GET", "POST", "DELETE"})}
+				q.Origin = "https://a.example"
+				if len(cfg.Origins) > 0 {
+					q.Origin = ref.Pick(lr, cfg.Origins)
+				}
+				if lr.Chance(1, 6) {
+					q.Origin = "https://evil.example"
+				}
+				switch lr.Intn(4) {
+				case 0:
+					q.Method, q.ACRM = "GET", ""
+				case 1:
+					q.ACRH = allowedList(lr, true)
+				default:
+					q.ACRH = allowedList(lr, false)
+				}
+				q.class = fmt.Sprintf("concurrent %s origin=%q acrm=%q acrh=%q", q.Method, q.Origin, q.ACRM, q.ACRH)
+				hdr := map[string]string{"Origin": q.Origin}
+				if q.ACRM != "" {
+					hdr[hACRM] = q.ACRM
+				}
+				if q.ACRH != "" {
+					hdr[hACRH] = q.ACRH
+				}
+				o := mon.Do(rt, mon.Req{Method: q.Method, Path: "/c/7", Header: hdr})
+				judged.Add(1)
+				c11, c12 := corsJudge(cfg, q, o.Status, o.Header, corsRouteAllow0)
+				cs := c11
+				if prop == "C12" {
+					cs = c12
+				}
+				if o.Panicked {
+					cs = append(cs, fmt.Sprintf("panic: %v", o.Panic))
+				}
+				if len(cs) > 0 {
+					mu.Lock()
+					if len(complaints) < 5 {
+						complaints = append(complaints, strings.Join(cs, "; ")+" ["+q.class+"]")
+					}
+					mu.Unlock()
+					return
+				}
+			}
+		}()
+	}
+	close(start)
+	wg.Wait()
+	c.EvalN(int(judged.Load()))
+	c.ClassN("concurrent_cors_requests_judged", int(judged.Load()))
+	if len(complaints) > 0 {
+		c.Violate("concurrent requests: "+complaints[0], map[string]any{"config": cfg.class, "more": complaints})
+	}
 }
 
 // corsRouter builds the router under test. pass selects the container: a stand-alone router, or a router made by
 // Group.New whose own WithCORS option has to override a different CORS option given to the group. Every router
 // has a recovery option and a second route whose handler panics: the recovered response is a response of a
 // live route and served method like any other.
+func hdr0(q corsReq) map[string]string {
+	hdr := map[string]string{}
+	if q.HasOrigin {
+		hdr["Origin"] = q.Origin
+	}
+	if q.ACRM != "" {
+		hdr[hACRM] = q.ACRM
+	}
+	if q.ACRH != "" {
+		hdr[hACRH] = q.ACRH
+	}
+	return hdr
+}
+
 func corsRouter(c *Ctx, env *mon.Env, cfg corsCfg, pass int) *mux.Router[*mon.Hnd] {
-	own := mux.WithCORS(cfg.Origins, cfg.AllowH, cfg.Exposed, cfg.MaxAge, cfg.Creds)
+	// the origin list is the front window of a larger array of the caller; a sibling router is configured afterwards
+	// with the whole array (its extra origin sorts first): what the sibling's construction does with its list must not
+	// change the window of the router under test
+	origins := cfg.Origins
+	var arena []string
+	if n := len(cfg.Origins); n > 0 && !hasAny(cfg.Origins) {
+		arena = make([]string, 0, n+2)
+		arena = append(append(arena, cfg.Origins...), "http://0-sibling.example")
+		origins = arena[:n]
+	}
+	own := mux.WithCORS(origins, cfg.AllowH, cfg.Exposed, cfg.MaxAge, cfg.Creds)
+	defer func() {
+		if arena != nil {
+			env.NewRouter("sibling-sharing-the-origin-array", mux.WithCORS(arena, nil, nil, 0, true))
+		}
+	}()
 	rec := mux.WithRecovery(func(w http.ResponseWriter, v any) { w.WriteHeader(500) })
 	var r *mux.Router[*mon.Hnd]
 	// an earlier CORS option of another meaning: the later one (the configuration under test) replaces it entirely,
@@ -407,6 +554,18 @@ func corsRouter(c *Ctx, env *mon.Env, cfg corsCfg, pass int) *mux.Router[*mon.Hn
 	boom := env.NewHnd(mon.KRoute, "/boom/{id}")
 	boom.Panic = &mon.PanicSpec{Value: "handler panics"}
 	r.Handle("/boom/{id}", boom, nil, "GET", "POST")
+	// a handler that edits, in place, every header value the router put into its own response (its response is its own
+	// business and is not judged): the values of later responses must come out as configured all the same
+	scr := env.NewHnd(mon.KRoute, "/scribble/{id}")
+	scr.Run = func(w http.ResponseWriter, _ *http.Request, _ *mon.Hnd) {
+		for _, vs := range w.Header() {
+			for i := range vs {
+				vs[i] = "edited-in-place-by-a-handler"
+			}
+		}
+		w.WriteHeader(200)
+	}
+	r.Handle("/scribble/{id}", scr, nil, "GET", "POST")
 	return r
 }
 
@@ -552,7 +711,7 @@ func init() {
 		}
 		return n * 8
 	}
-	rule := "the class product is enumerated completely: " + fmt.Sprint(n) + " configuration classes (origins none/any/one/several/any+others x allowed headers none/any/list/mixed-case unsorted list x exposed x max-age 0/-1/n x credentials, minus the rejected '*'+credentials) x 13068 request classes (6 methods x 3 paths x 6 origin classes x 11 Access-Control-Request-Method classes (absent, served, unserved, lower case, fragment, joined list, unknown, the automatically served HEAD and OPTIONS, and TRACE which is not served without WithTrace) x 11 Access-Control-Request-Headers classes derived from the configured list: as configured, lower/upper case, spaced lists, one disallowed, proper prefix / extension of an allowed name, empty element, forty entries all allowed / all but the last); first pass canonical strings, further passes random instantiations; " +
+	rule := "the class product is enumerated completely: " + fmt.Sprint(n) + " configuration classes (origins none/any/one/several/any+others x allowed headers none/any/list/mixed-case unsorted list x exposed x max-age 0/-1/n x credentials, minus the rejected '*'+credentials) x 15246 request classes (6 methods x 3 paths x 7 origin classes (absent, listed, unlisted, other case, null, *, the origin of a sibling router that shares the caller's origin array) x 11 Access-Control-Request-Method classes (absent, served, unserved, lower case, fragment, joined list, unknown, the automatically served HEAD and OPTIONS, and TRACE which is not served without WithTrace) x 11 Access-Control-Request-Headers classes derived from the configured list: as configured, lower/upper case, spaced lists, one disallowed, proper prefix / extension of an allowed name, empty element, forty entries all allowed / all but the last); first pass canonical strings, further passes random instantiations; " +
 		"non-trivial (distinct) = every (configuration class, request class, concrete strings) triple"
 	Register(&Engine{
 		ID: "C11", Cases: cases, Anchors: []string{"options.go:cors.handle", "options.go:cors.headerIsAllowed", "options.go:cors.sanitize"}, Run: func(c *Ctx) { runCORS(c, "C11") }, Directed: corsDirected("C11"), Rule: rule, Exhaustive: true,
